@@ -179,12 +179,109 @@ def enc_atom(v):
     return {'s': [ord(c) for c in v]}
 
 
+# ---- the yaqlization universe (abstract generated form -> wire / python object)
+
+def yq_entry_wire(e):
+    if e[0] == 'str':
+        return dict(k='str', s=e[1])
+    if e[0] == 'rx':
+        return dict(k='rx', start=e[1], end=e[3], atoms=list(e[2]))
+    return dict(k='table', acc=list(e[1]))
+
+
+def yq_entry_py(e):
+    import re
+    if e[0] == 'str':
+        return e[1]
+    if e[0] == 'rx':
+        return re.compile(('^' if e[1] else '') + ''.join('.' if a is None else re.escape(a) for a in e[2]) +
+                          ('$' if e[3] else ''))
+    acc = set(e[1])
+    return lambda n: n in acc
+
+
+def yq_remap_wire(r):
+    if r[0] == 'name':
+        return dict(n=r[1], tuple=False)
+    return dict(n=r[1], tuple=True, argmap=None if r[2] is None else [list(p) for p in r[2]])
+
+
+def yq_remap_py(r):
+    if r[0] == 'name':
+        return r[1]
+    return (r[1],) if r[2] is None else (r[1], dict(r[2]))
+
+
+def yq_remap_of_py(v):
+    """result of the real `_remap_name` -> wire"""
+    if isinstance(v, str):
+        return dict(n=v, tuple=False)
+    return dict(n=v[0], tuple=True, argmap=None if len(v) < 2 else [[a, b] for a, b in v[1].items()])
+
+
+def yq_settings_wire(s):
+    return dict(whitelist=[yq_entry_wire(e) for e in s['whitelist']], blacklist=[yq_entry_wire(e) for e in s['blacklist']],
+                remap=[[k, yq_remap_wire(v)] for k, v in s['remap']], auto=s['auto'])
+
+
+def yq_settings_py(s):
+    return {'whitelist': [yq_entry_py(e) for e in s['whitelist']], 'blacklist': [yq_entry_py(e) for e in s['blacklist']],
+            'attributeRemapping': {k: yq_remap_py(v) for k, v in s['remap']}, 'autoYaqlizeResult': s['auto']}
+
+
+YQ_NAMES = ['a', 'b', 'ab', 'ba', '_a', 'a_', '', 'abc']
+
+
+def gen_yq_entry(rng, ctx):
+    r = rng.random()
+    if r < 0.45:
+        return ('str', rng.choice(YQ_NAMES))
+    if r < 0.8:
+        atoms = [rng.choice(['a', 'b', '_', None]) for _ in range(rng.choice([0, 1, 1, 2, 3]))]
+        return ('rx', rng.random() < 0.4, atoms, rng.random() < 0.4)
+    return ('table', [rng.choice(YQ_NAMES) for _ in range(rng.choice([0, 1, 2]))])
+
+
+def gen_yq_remap(rng, ctx):
+    r = rng.random()
+    n = rng.choice(YQ_NAMES)
+    if r < 0.6:
+        return ('name', n)
+    if r < 0.8:
+        return ('tuple', n, None)
+    return ('tuple', n, [(rng.choice(YQ_NAMES), rng.choice(YQ_NAMES))])
+
+
+def gen_yq_settings(rng, ctx):
+    keys = []
+    for _ in range(rng.choice([0, 0, 1, 2])):
+        k = rng.choice(YQ_NAMES)
+        if k not in keys:
+            keys.append(k)
+    return dict(whitelist=[gen_yq_entry(rng, ctx) for _ in range(rng.choice([0, 0, 1, 2]))],
+                blacklist=[gen_yq_entry(rng, ctx) for _ in range(rng.choice([0, 1, 2]))],
+                remap=[(k, gen_yq_remap(rng, ctx)) for k in keys], auto=rng.random() < 0.5)
+
+
+PY_ERRS = {'KeyError': KeyError, 'AttributeError': AttributeError, 'ValueError': ValueError, 'TypeError': TypeError}
+
+
 def enc_value(v):
     import values
     return values.enc(v)
 
 
+NAMED_WIRE = {
+    'Yaql.Yaqlized.Entry': yq_entry_wire,
+    'Yaql.Yaqlized.Settings': yq_settings_wire,
+    'Yaql.Yaqlized.RemapTarget': yq_remap_wire,
+    'Yaql.Py.Err': lambda v: v,
+}
 NAMED = {
+    'Yaql.Yaqlized.Entry': (None, yq_entry_py),
+    'Yaql.Yaqlized.Settings': (None, yq_settings_py),
+    'Yaql.Yaqlized.RemapTarget': (yq_remap_of_py, yq_remap_py),
+    'Yaql.Py.Err': (None, lambda v: PY_ERRS[v]),
     'Yaql.Value': (enc_value, None),
     'Yaql.Scalar.SVal': (enc_value, None),
     'Yaql.Scalar.Num': (enc_value, None),
@@ -247,6 +344,8 @@ def to_python(ty, v):
         return dict((to_python(ty[1], a), to_python(ty[2], b)) for a, b in v)
     if k == 'tup':
         return tuple(to_python(t, x) for t, x in zip(ty[1:], v))
+    if k == 'named' and NAMED.get(ty[1], (None, None))[1] is not None:
+        return NAMED[ty[1]][1](v)
     if k == 'fn' and not ty[1]:
         val = to_python(ty[2], v)
         return lambda: val
@@ -265,6 +364,8 @@ def to_wire(ty, v):
         return None if v is None else {'some': to_wire(ty[1], v)}
     if k == 'tup':
         return [to_wire(t, x) for t, x in zip(ty[1:], v)]
+    if k == 'named' and ty[1] in NAMED_WIRE:
+        return NAMED_WIRE[ty[1]](v)
     return enc(ty, v)
 
 
@@ -274,6 +375,8 @@ ALPHA = 'ab'
 
 
 def gen_str(rng, ctx, maxlen=6):
+    if 'str_pool' in ctx:
+        return rng.choice(ctx['str_pool'])
     pool = ctx.setdefault('strs', [])
     r = rng.random()
     if pool and r < 0.35:
@@ -400,6 +503,10 @@ def gen_sval(rng, ctx):
 
 
 NAMED_GEN = {
+    'Yaql.Yaqlized.Entry': gen_yq_entry,
+    'Yaql.Yaqlized.Settings': gen_yq_settings,
+    'Yaql.Yaqlized.RemapTarget': gen_yq_remap,
+    'Yaql.Py.Err': lambda rng, ctx: rng.choice(['KeyError', 'AttributeError']),
     'Yaql.Scalar.SVal': gen_sval,
     'Yaql.Scalar.Num': gen_num,
     'Yaql.Value': gen_yvalue,
@@ -413,6 +520,8 @@ def gen_args(rng, t):
     if gen is not None:
         return gen(rng, t)
     ctx = {}
+    if t.area == 'Yaqlized':
+        ctx['str_pool'] = YQ_NAMES
     return [gen_value(rng, ty, ctx) for p, ty in t.params if p not in t.fix]
 
 
